@@ -244,7 +244,8 @@ Record ostep := {
   os_arch_prev : list nat;         (* archive snapshot recorded with it *)
   os_next : list nat;              (* the generation this step records *)
   os_arch_next : list nat;         (* archive snapshot recorded with it *)
-  os_max : nat }.                  (* size the step may reach: pop_size in force / len(prev) / 1 *)
+  os_max : nat;                    (* size the step may reach: pop_size in force / len(prev) / 1 *)
+  os_must : list nat }.            (* the archive head when keep_n_best elitism applies (C16: it is kept), else nothing *)
 
 Definition hflag (f : hind -> bool) (h : heap) (u : nat) : bool :=
   match nth_error h u with Some c => f c | None => false end.
@@ -281,6 +282,8 @@ Definition step_admits (o : ostep) : bool :=
     forallb (fun u => if is_fresh u then lineage_to h (os_seen o) roots orphans_ok fuel u
                       else mem u keep) (os_next o) in
   members_ok && arch_ok &&
+  (* next = elitism(archive, inherited): a non-empty one contains the archive head when keep_n_best applies *)
+  ((length (os_next o) =? 0) || subset_nat (os_must o) (os_next o)) &&
   match os_kind o with
   | KInitial =>
       (length (os_prev o) =? 0) && (length (os_seen o) =? 0) &&
@@ -312,11 +315,11 @@ Definition step_admits (o : ostep) : bool :=
 (* one exported run: the heap once, then its transitions *)
 Record otrans := {
   ot_kind : step_kind; ot_seen : list nat; ot_prev : list nat; ot_arch_prev : list nat;
-  ot_next : list nat; ot_arch_next : list nat; ot_max : nat }.
+  ot_next : list nat; ot_arch_next : list nat; ot_max : nat; ot_must : list nat }.
 
 Definition mk_ostep (h : heap) (t : otrans) : ostep :=
   {| os_kind := ot_kind t; os_heap := h; os_seen := ot_seen t; os_prev := ot_prev t;
-     os_arch_prev := ot_arch_prev t; os_next := ot_next t; os_arch_next := ot_arch_next t; os_max := ot_max t |}.
+     os_arch_prev := ot_arch_prev t; os_next := ot_next t; os_arch_next := ot_arch_next t; os_max := ot_max t; os_must := ot_must t |}.
 
 Definition run_admits (h : heap) (ts : list otrans) : bool := forallb (fun t => step_admits (mk_ostep h t)) ts.
 Definition run_admits_each (h : heap) (ts : list otrans) : list bool := map (fun t => step_admits (mk_ostep h t)) ts.
